@@ -1,4 +1,43 @@
-(* C15 placeholder (Model/Parse.v theorems follow in a later commit) *)
-From Coq Require Import List.
-Theorem C15_placeholder : forall (A B : Type) (f : A -> B) (l1 l2 : list A), map f (l1 ++ l2) = map f l1 ++ map f l2.
-Proof. intros; apply map_app. Qed.
+(* C15 - Equivalent ways of writing a project give the same schedule (reference resolution model).
+   C15_rename: resolving a reference yields a POSITION in the task tree; renaming all ids by any
+   injective function leaves every resolved position unchanged, for absolute and relative ('!', '!!', ...)
+   references - and the scheduler model never sees names, only positions.
+   C15_relative_absolute: a relative reference and the absolute one that spells the same chain below the
+   same base resolve to the same task.  C15_precedes: writing 'a precedes b {opts}' instead of
+   'b depends a {opts}' yields the same edges up to order, and the dependency bound is order-independent.
+   Comments, whitespace, macros and inline shifts are decided by the rewrite runs of harness/props/c15.py. *)
+From Coq Require Import List Arith Permutation.
+Require Import SP.Model.Parse SP.Proofs.ParseProofs.
+Import ListNotations.
+
+Theorem C15_rename_absolute : forall r, (forall a b, r a = r b -> a = b) -> forall forest ids,
+  resolve_abs (map (rename r) forest) (map r ids) = resolve_abs forest ids.
+Proof. intros; now apply resolve_abs_rename. Qed.
+Print Assumptions C15_rename_absolute.
+
+Theorem C15_rename_relative : forall r, (forall a b, r a = r b -> a = b) -> forall forest from n ids,
+  resolve_rel (map (rename r) forest) from n (map r ids) = resolve_rel forest from n ids.
+Proof. intros; now apply resolve_rel_rename. Qed.
+Print Assumptions C15_rename_relative.
+
+Theorem C15_relative_absolute : forall forest base t base_ids ids,
+  base <> [] -> at_pos base forest = Some t -> resolve_abs forest base_ids = Some base ->
+  resolve_abs forest (base_ids ++ ids) =
+  match descend ids (tkids t) with Some p => Some (base ++ p) | None => None end.
+Proof. intros; now apply descend_at_pos. Qed.
+Print Assumptions C15_relative_absolute.
+
+Theorem C15_precedes : forall (O : Type) (deps prec : list (nat * nat * O)) b a o,
+  Permutation (edges_of ((b, a, o) :: deps) prec) (edges_of deps ((a, b, o) :: prec)).
+Proof. intros; apply edges_precedes_perm. Qed.
+
+Theorem C15_bound_order_independent : forall (f : nat -> nat) l l', Permutation l l' -> forall acc,
+  fold_left (fun a d => Nat.max a (f d)) l acc = fold_left (fun a d => Nat.max a (f d)) l' acc.
+Proof. exact fold_max_perm. Qed.
+Print Assumptions C15_bound_order_independent.
+
+(* non-vacuity: grp{x,y}, x at top level: absolute 'x' is the top-level one, '!x' from grp.y is grp.x *)
+Example C15_example :
+  let forest := [Node 1 [Node 7 []; Node 8 []]; Node 7 []] in
+  resolve_abs forest [7] = Some [1] /\ resolve_rel forest [0; 1] 1 [7] = Some [0; 0] /\ resolve_abs forest [1; 7] = Some [0; 0].
+Proof. repeat split. Qed.
